@@ -123,14 +123,10 @@ def run(ck):
                     d, acc = arc_spec(a[j], b[j], x[j], j)
                     goals.append((parts[j] != acc, d, f' [conjunct of joint {j}]'))
                 ck.notes.append(label + 'result decomposed into per-joint conjuncts')
+        rex = {'from==to': z3.And([a[j] != b[j] for j in sym])}
         for goal, gdefs, gl in goals:
-            excl = []
-            for attempt in range(4):
-                res, m = ck.prove(label + 'compliant <=> arc membership' + gl + (' (known roles excluded)' if excl else ''), eng, *ctx, *gdefs, goal, *excl)
-                if res != 'sat': break
-                role = ck.report('compliant differs from arc membership', case_from_model(m, vars_, sym, fixed, ctor), roles_py)
-                if role == 'from==to': excl = [z3.And([a[j] != b[j] for j in sym])]; continue
-                break
+            ck.decide(label + 'compliant <=> arc membership' + gl, eng, [*ctx, *gdefs], goal, lambda m: case_from_model(m, vars_, sym, fixed, ctor),
+                      what='compliant differs from arc membership', roles=roles_py, role_excl=rex, vary=[v[j] for j in sym for v in (a, b, x)] if len(sym) == 1 else ())
         # both verdicts are reachable (non-vacuity of the equivalence)
         ck.witness(label + 'some vector accepted', eng, *ctx, zb(r))
         ck.witness(label + 'some vector rejected', eng, *ctx, z3.Not(zb(r)))
@@ -144,14 +140,10 @@ def run(ck):
             res2 = eng2.call_body(st2, eng2.bodies[eng2.find('::compliant', 'constraints::')], [rc, rx])
             assert len(res2) == 1
             st3, rcen = res2[0]
-            excl = []
-            for attempt in range(3):
-                res, m = ck.prove(label + 'centre of the range is accepted', eng2, st3.pcz(), z3.Not(zb(rcen)), *excl)
-                if res != 'sat': break
-                case = case_from_model(m, v2, sym, fixed2, 'new'); case['x'][j] = model_float(m, cons2.items[2].items[j].v); case['centre'] = 'true'
-                role = ck.report('centre of a range rejected', case, roles_py)
-                if role == 'from==to': excl = [v2[0][j] != v2[1][j]]; continue
-                break
+            def ccase(m):
+                case = case_from_model(m, v2, sym, fixed2, 'new'); case['x'][j] = model_float(m, cons2.items[2].items[j].v); case['centre'] = 'true'; return case
+            ck.decide(label + 'centre of the range is accepted', eng2, [st3.pcz()], z3.Not(zb(rcen)), ccase, what='centre of a range rejected', roles=roles_py,
+                      role_excl={'from==to': v2[0][j] != v2[1][j]}, vary=[v2[0][j], v2[1][j]])
     # filter: order-preserving sub-list of the compliant elements
     eng = ck.engine(unwind=5, pi_rational=True)
     a, b = z3.Real('fa'), z3.Real('fb'); xs = [z3.Real(f'fx{i}') for i in range(3)]
